@@ -129,11 +129,21 @@ Lemma c02_stale_gop_refuted :
   out_of (cfg0 1) h 1 = Some [LT 2; LT 1; LT 3].
 Proof. vm_compute. reflexivity. Qed.
 
-(* F-08(iii): a TS consumer that stays attached across a re-publish never gets the new PAT/PMT *)
-Lemma c02_ts_patpmt_refuted :
+(* F-08(iii), FIXED (lal c48c20c): a TS consumer that stays attached across a
+   re-publish receives the new PAT/PMT before the new input's TS data *)
+Lemma c02_ts_patpmt_after_republish :
   let h := [EvInStart; EvPatPmt; EvJoin KTs 1; EvTs true; EvInStop; EvInStart; EvPatPmt; EvTs true] in
-  out_of (cfg0 0) h 1 = Some [LPat 0; LTs 0; LTs 1].
+  out_of (cfg0 0) h 1 = Some [LPat 0; LTs 0; LPat 1; LTs 1].
 Proof. vm_compute. reflexivity. Qed.
+
+(* in general: OnPatPmt reaches every TS session that is past its prologue, and only those *)
+Theorem c02_patpmt_resent : forall cf s c,
+  In c (g_subs s) ->
+  In (if ckind_eqb (c_kind c) KTs && negb (c_fresh c) then c_append c [LPat (g_next_pat s)] else c)
+     (g_subs (step cf s EvPatPmt))
+  /\ g_patpmt (step cf s EvPatPmt) = Some (LPat (g_next_pat s)).
+Proof. intros cf s c Hin. cbn [step g_subs g_patpmt]. split; [|reflexivity]. now apply (in_map (fun c => if ckind_eqb (c_kind c) KTs && negb (c_fresh c) then c_append c [LPat (g_next_pat s)] else c)). Qed.
+Print Assumptions c02_patpmt_resent.
 
 (* F-27: joined before the video codec was known, stream starts with a non-key frame *)
 Lemma c02_first_frame_not_key_refuted :
